@@ -13,6 +13,7 @@
 import ast
 import importlib
 import inspect
+import json
 import os
 import pkgutil
 import sys
@@ -225,11 +226,71 @@ class DecodeDeterminism(Unit):
         runs = out.value
         first = runs[0]
         yield "C09", "decoders-observed", len(first) > 200
+        for i, r in enumerate(runs[1:]):
+            got = r.get("retained-results")
+            yield "C09", "results-decoded-earlier-are-not-changed-by-later-decodes:pass%d%s" % (i, "" if got == ["unchanged"] else " (%s)" % ", ".join((got or ["not observed"])[1:3])), got == ["unchanged"]
         for k in sorted(first):
             yield "C09", "same-result-whatever-was-decoded-before:%s" % k, all(r.get(k) == first[k] for r in runs[1:])
             o = first[k]
             if not k.startswith("decode:") and isinstance(o, list) and len(o) == 4 and o[0] != "raised":
                 yield "C09", "build_cdb-repeated-on-the-same-object-with-equal-inputs-gives-equal-bytes:%s" % k, isinstance(o[3], list) and o[3][0] == o[3][1] == o[3][2] == o[0]
+
+
+class Retention(Unit):
+    """a decoded result is the caller's: decoding OTHER data afterwards (same decoder, other values) never changes a
+    result handed out earlier.  Every decoder contract of C04 (contracts.datain / contracts.liststep: they build
+    well-formed responses from field values) is run natively on three value assignments in a row; the first result
+    is compared with a deep copy of itself taken before the later calls."""
+
+    name = "isolation/retention"
+    properties = ("C09",)
+    level = "bounded"
+    witness = False
+    bound_note = "every decoder contract and case of C04, three value assignments each (all-zero, small, random with the run's seed); concrete native runs"
+
+    def cases(self, tier):
+        from pyvc.unit import REGISTRY
+
+        return [{"unit": n} for n in sorted(REGISTRY) if n.startswith("decode/")]
+
+    def case_id(self, case):
+        return case["unit"]
+
+    def run(self, X, case, a):
+        import copy
+        import random
+
+        from pyvc.unit import REGISTRY, probe_inputs, run_native
+
+        u = REGISTRY[case["unit"]]
+        changed, tried = [], 0
+        for c in u.cases("quick"):
+            try:
+                decls = u.inputs(c)
+                ins = probe_inputs(decls, random.Random(1), 4)
+                first = run_native(u, c, ins[1], frame=False)[0]
+            except V.EngineSignal:
+                continue
+            if first is None or first.kind != "return" or not isinstance(first.value, (dict, list)):
+                continue
+            keep = first.value
+            snap = copy.deepcopy(keep)
+            for other in (ins[3], ins[0], ins[2]):
+                try:
+                    run_native(u, c, other, frame=False)
+                except V.EngineSignal:
+                    pass
+            tried += 1
+            if keep != snap:
+                changed.append("%s: decoded from %s, after decoding %s" % (u.case_id(c), json.dumps(ins[1])[:120], json.dumps(ins[3])[:80]))
+        return tried, changed
+
+    def ensures(self, case, a, out, X):
+        if out.kind != "return":
+            yield "C09", "retention-observable (raised %s: %s)" % (type(out.exc).__name__, str(out.exc)[:80]), False
+            return
+        tried, changed = out.value
+        yield "C09", "results-decoded-earlier-are-not-changed-by-later-decodes%s" % (" (%s)" % "; ".join(changed[:2]) if changed else ""), not changed
 
 
 # ------------------------------------------------------------------------------------------ (3) pairs
@@ -318,6 +379,7 @@ class Pairs(Unit):
 
 register(PackageScan())
 register(DecodeDeterminism())
+register(Retention())
 register(Pairs())
 
 
@@ -423,13 +485,17 @@ def observe_decoders(order="forward"):
                 k, v = _json.loads(data.decode())
                 obs[k] = v
         return obs
+    kept = []
     for job in jobs:
-        k, v = _run_decoder_job(job)
+        k, v = _run_decoder_job(job, kept)
         obs[k] = v
+    # results handed out earlier are the caller's: a later decode (of other data, with another class) must not change them
+    changed = sorted(k for k, obj, text in kept if repr(obj)[:400] != text)
+    obs["retained-results"] = ["unchanged"] if not changed else ["changed-by-a-later-decode"] + changed[:6]
     return obs
 
 
-def _run_decoder_job(job):
+def _run_decoder_job(job, kept=None):
     name, cls, fn, kind, extra, bi, buf = job
     if True:
         kw = dict(extra)
@@ -440,7 +506,11 @@ def _run_decoder_job(job):
             args = [cls] + args
         key = "decode:%s%s#%d" % (name, "".join(",%s=%s" % kv for kv in sorted(extra.items())), bi)
         try:
-            return key, ["value", repr(fn(*args, **kw))[:400]]
+            val = fn(*args, **kw)
+            text = repr(val)[:400]
+            if kept is not None:
+                kept.append((key, val, text))
+            return key, ["value", text]
         except Exception as ex:
             return key, ["raised", type(ex).__name__]
 
